@@ -1,6 +1,6 @@
 (* C17 (round 2) -- a seeded run is a run of the stream-driven model on the trace it produced. *)
 From Coq Require Import ZArith List Bool Lia ZifyBool.
-From VV Require Import Base.F64 Rng.RngDefs Rng.RngProofs Rng.DistDefs Rng.DistProofs Ga.GaDefs Ga.GaProofs Ga.GaSeededDefs.
+From VV Require Import Base.F64 Rng.RngDefs Rng.RngProofs Rng.DistDefs Rng.DistProofs Rng.DistRealProofs Ga.GaDefs Ga.GaProofs Ga.GaSeededDefs.
 Import ListNotations.
 Local Open Scope Z_scope.
 
@@ -201,3 +201,16 @@ Proof.
 Qed.
 
 End Refines.
+
+(* in a seeded run the boolean contract needs no check: std::bernoulli_distribution honours it for every state *)
+Lemma e_bool_never_refuses : forall p st, wf st -> exists b st' tr, e_bool p st = Some (b, st', tr).
+Proof.
+  intros p st Hw. unfold e_bool.
+  destruct (Rng.DistRealProofs.boolean_contract p st Hw) as [H0 H1].
+  destruct (boolean p st) as [b st']. cbn [fst] in *.
+  assert (E : bool_contract p b = true).
+  { unfold bool_contract. destruct (F64.eqb p F64.zero) eqn:E0.
+    - rewrite (H0 eq_refl). reflexivity.
+    - unfold f64_one. destruct (F64.eqb p (F64.of_Z 1)) eqn:E1; [exact (H1 eq_refl)|reflexivity]. }
+  rewrite E. eauto.
+Qed.
